@@ -172,7 +172,54 @@ def _fail_record(case, v: Violation):
         "observed": v.observed,
         "expected": v.expected,
         "extra": v.extra,
+        "hashseed": os.environ.get("PYTHONHASHSEED", "0"),
     }
+
+
+def hash_seeds(seed):
+    """PYTHONHASHSEED values of the worker interpreters (a pure function of VERIF_SEED): string hashing decides the
+    iteration order of every set/dict of names or families inside the package, so a quarter of the workers each run
+    under 0, 1, a value derived from the seed, and 4242."""
+    return [0, 1, (seed * 7919 + 13) % 4294967295, 4242]
+
+
+class Pools:
+    """Process pools of freshly started interpreters (spawn), one pool per hash seed; tasks are dealt round-robin, so
+    which task meets which hash seed is a function of VERIF_SEED and the task index only."""
+
+    def __init__(self, seed):
+        ctx = mp.get_context("spawn")
+        seeds = hash_seeds(seed)[: max(1, min(4, NPROC))]
+        per = max(1, NPROC // len(seeds))
+        old = os.environ.get("PYTHONHASHSEED")
+        self.pools = []
+        try:
+            for h in seeds:
+                os.environ["PYTHONHASHSEED"] = str(h)
+                self.pools.append(ctx.Pool(per))
+        finally:
+            if old is None:
+                os.environ.pop("PYTHONHASHSEED", None)
+            else:
+                os.environ["PYTHONHASHSEED"] = old
+        self.seeds = seeds
+
+    def run(self, fn, tasks):
+        pending = [self.pools[i % len(self.pools)].apply_async(fn, (t,)) for i, t in enumerate(tasks)]
+        for p in pending:
+            yield p.get()
+
+    def close(self):
+        for p in self.pools:
+            p.close()
+        for p in self.pools:
+            p.join()
+
+    def __enter__(self):
+        return self
+
+    def __exit__(self, *a):
+        self.close()
 
 
 def shard_worker(args):
@@ -326,13 +373,12 @@ def run_property(prop_id, tier, seed):
     deadline = t0 + time_limit
     exhaustive = False
 
-    ctx = mp.get_context("fork")
-    with ctx.Pool(NPROC) as pool:
+    with Pools(seed) as pools:
         # 2. bounded-exhaustive layer -----------------------------------------
         jobs = mod.exhaustive(tier) if hasattr(mod, "exhaustive") else []
         if jobs:
             exhaustive = True
-            for out in pool.imap_unordered(job_worker, [(prop_id, tier, j, deadline) for j in jobs]):
+            for out in pools.run(job_worker, [(prop_id, tier, j, deadline) for j in jobs]):
                 if "error" in out:
                     errors.append(out["error"])
                     continue
@@ -346,13 +392,14 @@ def run_property(prop_id, tier, seed):
             # VERIF_NO_SHRINK is set by the sensitivity drivers only (they need the verdict, not a minimal case)
             shrink = budget.get("shrink", True) and not os.environ.get("VERIF_NO_SHRINK")
             tasks = [(prop_id, tier, seed, i, per, deadline, shrink) for i in range(shards)]
-            for out in pool.imap_unordered(shard_worker, tasks):
+            for out in pools.run(shard_worker, tasks):
                 if "error" in out:
                     errors.append(out["error"])
                     continue
                 stats.merge(out["stats"])
                 if out["fail"]:
                     violations.append(out["fail"])
+        used_hash_seeds = list(pools.seeds)
 
     # 4. property-specific extra part (subprocess determinism, fuzzing...) --
     if hasattr(mod, "extra"):
@@ -399,7 +446,7 @@ def run_property(prop_id, tier, seed):
                 fh.write(jdump({
                     "property": prop_id, "clause": clause, "case": rec["case"],
                     "observed": rec["observed"], "expected": rec["expected"], "extra": rec["extra"],
-                    "seed": seed, "tier": tier,
+                    "seed": seed, "tier": tier, "hashseed": rec.get("hashseed", "0"),
                 }))
         n_viol += 1
         out_lines.append(f"VIOLATION property={prop_id} replay={path}")
@@ -432,6 +479,7 @@ def run_property(prop_id, tier, seed):
             "time_budget_hit": stats.timeouts > 0,
             "oracle_selfcheck": getattr(mod, "SELFCHECK", None),
             "coverage_guided": fuzz_report,
+            "worker_hash_seeds": used_hash_seeds,
         },
         "assumptions": getattr(mod, "ASSUMPTIONS", []),
         "wall_s": round(wall, 2),
@@ -501,8 +549,13 @@ def _short(obj, n=300):
 
 
 def replay(prop_id, path):
-    mod = load(prop_id)
     rep = load_replay(path)
+    want = str(rep.get("hashseed", os.environ.get("PYTHONHASHSEED", "0")))
+    if want != os.environ.get("PYTHONHASHSEED", "0"):
+        # the case was found by a worker running under another PYTHONHASHSEED: replay it under the same one
+        env = dict(os.environ, PYTHONHASHSEED=want)
+        os.execve(sys.executable, [sys.executable, "-m", "harness.main", prop_id, "--replay", path], env)
+    mod = load(prop_id)
     try:
         run_check(mod, rep["case"])
     except Skip as s:
